@@ -429,6 +429,9 @@ fn e2_abort(srv: &Srv, cfg: &SrvCfg, existing: bool, j: usize, silence: bool) ->
         let _ = std::fs::remove_file(&path);
         return (viol, desc);
     }
+    // the handshake reply is sent BEFORE the listener spawns the transfer thread: wait until it has finished the request,
+    // otherwise "no transfer thread alive" could simply mean "not started yet"
+    barrier(srv);
     for k in 1..=j {
         c.to_peer(&rc::data(k as u16, &body[(k - 1) * 512..k * 512]));
         let _ = c.recv_wait(BACKSTOP);
